@@ -7,6 +7,7 @@ use crate::dens::{murmur32_of, Dens, DensState};
 use fnv::FnvHasher;
 use probminhash::densminhash::{OptDensMinHash, RevOptDensMinHash};
 use probminhash::nohasher::NoHashHasher;
+use rayon::prelude::*;
 use serde_json::{json, Value};
 use stateright::{Checker, Model, Property};
 use std::collections::BTreeSet;
@@ -494,6 +495,83 @@ fn large_sizes(ctx: &Ctx, base: u64) -> u64 {
     cases
 }
 
+/// Every item populates exactly one bin with (its uniform value in [0,1), its hash): scan of n consecutive identifiers on a
+/// two-bin sketcher.  Returns the items whose uniform value is exactly 0.0 (legal for the half-open range; about 2^-23 of
+/// the items in f32) - the one value a "degenerate draw" guard would mistake for garbage.
+pub fn single_item_scan<S: Dens>(base: u64, n: u64) -> Result<Vec<u64>, String> {
+    let res: Vec<Result<Vec<u64>, String>> = (0..(n >> 12).max(1))
+        .into_par_iter()
+        .map(|c| {
+            let mut zeros = Vec::new();
+            for x in (base + (c << 12))..(base + ((c + 1) << 12)).min(base + n) {
+                let r = guarded_mut(|| {
+                    let mut s = S::new(2);
+                    s.sketch(&x);
+                    s.state()
+                });
+                let st = match r {
+                    Ok(st) => st,
+                    Err(p) => return Err(format!("sketch({}) on a fresh {} m=2 panics: {}", x, S::name(), p)),
+                };
+                let filled: Vec<usize> = (0..2).filter(|k| st.init[*k]).collect();
+                if filled.len() != 1 || st.nb_empty != 1 {
+                    return Err(format!("{} m=2: after sketch({}) {} bins are populated (nb_empty = {}): the item left no trace or too many", S::name(), x, filled.len(), st.nb_empty));
+                }
+                let k = filled[0];
+                let v = if S::name().contains("f32") { f32::from_bits(st.hs[k] as u32) as f64 } else { f64::from_bits(st.hs[k]) };
+                if st.values[k] != S::item_hash(&x) || !(0. ..1.).contains(&v) {
+                    return Err(format!("{} m=2: after sketch({}) bin {} holds (value {}, hash {:#x}), expected a value in [0,1) and hash {:#x}", S::name(), x, k, v, st.values[k], S::item_hash(&x)));
+                }
+                if v == 0. {
+                    zeros.push(x);
+                }
+            }
+            Ok(zeros)
+        })
+        .collect();
+    let mut out = Vec::new();
+    for r in res {
+        out.extend(r?);
+    }
+    Ok(out)
+}
+
+/// streams that contain a zero-draw witness x: x owns its bin (0.0 is the smallest possible value) whatever else is streamed,
+/// so two sketches that both contain x agree at that bin, and the stream of x alone finishes with every bin holding x
+pub fn zero_draw_streams<S: Dens>(witnesses: &[u64], base: u64) -> Option<String> {
+    for &x in witnesses.iter().take(8) {
+        for &m in &[1usize, 7, 64] {
+            let r = guarded_mut(|| -> Result<(), String> {
+                let hx = S::item_hash(&x);
+                let mut alone = S::new(m);
+                alone.sketch_slice(&[x]).map_err(|e| format!("the stream of the single item {} is reported as failing: {}", x, e))?;
+                if alone.views().v64.iter().any(|h| *h != hx) {
+                    return Err(format!("the sketch of the single item {} holds another hash", x));
+                }
+                let mut one = S::new(m);
+                one.sketch(&x);
+                let k = (0..m).find(|k| one.state().init[*k]).ok_or("item left no trace")?;
+                let ya: Vec<u64> = std::iter::once(x).chain((0..40).map(|i| base + 2 * i)).collect();
+                let yb: Vec<u64> = (0..40).map(|i| base + 2 * i + 1).chain(std::iter::once(x)).collect();
+                let mut a = S::new(m);
+                a.sketch_slice(&ya)?;
+                let mut b = S::new(m);
+                b.sketch_slice(&yb)?;
+                if a.views().v64[k] != hx || b.views().v64[k] != hx {
+                    return Err(format!("item {} draws the smallest possible value 0.0 for bin {} but does not own that bin in a stream of 41 items", x, k));
+                }
+                Ok(())
+            });
+            match r {
+                Ok(Ok(())) => {}
+                Ok(Err(w)) => return Some(format!("{} m={}: {}", S::name(), m, w)),
+                Err(p) => return Some(format!("{} m={}: panic {}", S::name(), m, p)),
+            }
+        }
+    }
+    None
+}
+
 fn ops_json(ops: &[Op]) -> Value {
     json!(ops
         .iter()
@@ -722,6 +800,30 @@ pub fn run(ctx: &Ctx) -> i32 {
     // no-op hasher: the stored hashes are the identifiers themselves, including the boundary values 0 and u64::MAX
     do_type!(OptDensMinHash<f64, u64, NoHashHasher>, "opt64nohash", max_m - 2);
     do_type!(RevOptDensMinHash<f64, u64, NoHashHasher>, "rev64nohash", max_m - 2);
+    // ---- every item of a block populates one bin; zero-draw witnesses
+    let mut scan_info = Vec::new();
+    {
+        macro_rules! scan {
+            ($t:ty, $tag:expr, $n:expr) => {
+                match single_item_scan::<$t>(base << 10, $n) {
+                    Err(w) => ctx.violation(&format!("single-item:{}", $tag), &w, json!({"kind": "scan", "sketcher": $tag})),
+                    Ok(z) => {
+                        if let Some(w) = zero_draw_streams::<$t>(&z, base << 3) {
+                            ctx.violation(&format!("zero-draw:{}", $tag), &w, json!({"kind": "scan", "sketcher": $tag}));
+                        }
+                        scan_info.push(json!({"sketcher": $tag, "items": $n, "zero_draw_witnesses": z.len()}));
+                    }
+                }
+            };
+        }
+        let nf32: u64 = ctx.pick(1 << 25, 1 << 27);
+        let nf64: u64 = ctx.pick(1 << 20, 1 << 22);
+        scan!(OptDensMinHash<f32, u64, FnvHasher>, "opt32", nf32);
+        scan!(RevOptDensMinHash<f32, u64, FnvHasher>, "rev32", nf32);
+        scan!(OptDensMinHash<f64, u64, FnvHasher>, "opt64", nf64);
+        scan!(RevOptDensMinHash<f64, u64, FnvHasher>, "rev64", nf64);
+        println!("C09 single-item scan: {:?}", scan_info);
+    }
     let n_large = large_sizes(ctx, base);
     println!("C09 large sizes: {} (sketcher, m) cases", n_large);
     let mut empty_stats = Vec::new();
@@ -742,6 +844,7 @@ pub fn run(ctx: &Ctx) -> i32 {
         "rule": "stateright BFS to a fixed point over the complete internal state (hook H3) of the real sketcher; ops: sketch(witness) for one witness item per bin (two for the first and last bin), end_sketch, sketch_slice over 4 chunks (including the empty one), reinit; each transition replays the shortest history on a fresh real instance; on every finishing edge: populated bins unchanged, every other bin holds the (value,hash) of a populated bin, nb_empty=0, all positions are hashes of streamed items, u32 view = murmur3(127) of u64 view, equal u64 entries => equal float/u32 entries, second end_sketch is a no-op, sketch_slice = item-wise + end_sketch, reinit = initial state; plus every non-empty occupancy pattern for larger m; finishing an empty stream runs in a supervised sub-process with a 5 s horizon",
         "spaces": spaces,
         "direct_occupancy_patterns": tot_patterns,
+        "single_item_scan": {"per_sketcher": scan_info, "what": "every identifier of a block of 2^25 (2^27) for the f32 and 2^20 (2^22) for the f64 sketchers populates exactly one bin of a fresh two-bin sketcher with (a value in [0,1), its hash); the items whose value is exactly 0.0 are then streamed alone and with 40 other items at m in {1,7,64}: they own their bin"},
         "large_sizes": {"cases": n_large, "what": "m in {255,256,257,1000,4097,50000,65535,65536,65537,1000003,3*2^20} (thorough: 2^24+1, 5*2^22), 4 sketcher types, one stream of min(max(2^17, m/8), 4m) consecutive identifiers: sketch_slice = item-wise + end_sketch on the whole internal state, and the finishing-edge invariants; one stream per size, not exhaustive"},
         "empty_stream_cases": empty_stats,
     });
@@ -791,6 +894,7 @@ pub fn replay(_ctx: &Ctx, case: &Value) -> Result<(bool, String), String> {
             };
             Ok((r.is_err(), format!("{:?}", r)))
         }
+        Some("scan") => Err("re-derived by running the check itself".into()),
         Some("empty") => {
             let which = case["which"].as_str().ok_or("which")?;
             let m = case["m"].as_u64().ok_or("m")?;
